@@ -21,7 +21,7 @@ ID = 'C13'
 LEVEL = 'exploration'
 TECHNIQUE = 'exhaustive enumeration of all strings / token sequences up to a length bound and all 1-2 step mutations of seed scripts; per-input alarm, execution canary, build+instantiate, statement accounting'
 RULE = ('(a) all strings of length <= 4 (quick) / <= 5 (thorough) over 25 characters; (b) all sequences of <= 3 (quick) / <= 4 (thorough) tokens over 32 tokens; '
-        '(c) all single mutations (quick) / single and double mutations (thorough) of 16 seed scripts (token deletion, duplication, adjacent swap, bracket insertion); '
+        '(c) all single mutations (quick) / single and double mutations (thorough) of 18 seed scripts (token deletion, duplication, adjacent swap, bracket insertion); '
         '(d) all sequences of <= 6 (quick) / <= 7 (thorough) tokens over the 8-token alphabet {X, exp, =, (, ), 1, space, [-1]} (names in several roles). '
         'non-trivial = input that is not rejected by the very first equation regex test, i.e. reaches term parsing, or is accepted; distinct by input text')
 ASSUMPTIONS = [
@@ -49,6 +49,8 @@ SEEDS = [
     "A = B['b'] + B[-2]\nC = B[1] / B[`0`]",
     'f = f(X)',
     'max = max(A, B[-1])',
+    '`self._Y[t] = self._Y[t] + 1`\nY = X\n`self._Y[t] = self._Y[t] + 1`',
+    '```\nself._Z[t] = 0.0\n```\n```\nself._Z[t] = 0.0\n```\nZ = Z + X',
 ]
 SMALL_TOKENS = ['X', 'exp', '=', '(', ')', '1', ' ', '[-1]']
 
@@ -181,6 +183,15 @@ def judge(s, sink):
                   'an accepted script cannot be built or instantiated'))
     if _EXEC_HITS:
         v.append(('statement-executed:build', 'no model code runs while building/instantiating', _EXEC_HITS[:3], 'building executed model code'))
+    # every equation / verbatim block of the symbol list reaches the built model exactly once
+    try:
+        carriers = [x for x in symbols if x.type.name in ('ENDOGENOUS', 'VERBATIM') and x.equation is not None and x.code is not None]
+        text = fsic.build_model_definition(symbols, converter=lambda x: '#<<C13-MARK>>\n' + x.code)
+        if text.count('#<<C13-MARK>>') != len(carriers):
+            v.append(('statement-dropped:build', len(carriers), text.count('#<<C13-MARK>>'),
+                      'a statement of the script does not contribute exactly one equation or verbatim block to the built model'))
+    except Exception as e:
+        v.append(('build-definition-failed:%s' % type(e).__name__, 'builds', repr(e)[:200], 'build_model_definition failed on an accepted script'))
     if sink.n != printed:
         v.append(('side-effect:stdout:build', 'nothing printed', sink.n - printed, 'building wrote to stdout'))
     # statement accounting
